@@ -272,6 +272,87 @@ theorem leak_rejected (p : Prog) (hwf : WF p) (g s : Nat) (hg : g = 0 ∨ Below 
     · simpa using (below_claimed p hwf st hdi hg h0).1
   exact no_outer_leak p hwf b tr h g s hg' hs pg l hpg hl a ha hleak
 
+/-! ### a body held by two operator applications is rejected (round 10: the multiple-owner check,
+    lifted from the single test `multiple_owner_rejected` to every build, any nesting depth) -/
+
+/-- Everything the main source reaches through input AND subgraph edges is reached, through input
+    edges only, by the main graph or by a body below it. -/
+theorem reach_full_split (p : Prog) {v : V} (h : Reach p.adjFull (.src 0) v) :
+    ∃ G, (G = 0 ∨ Below p G 0) ∧ Reach p.adjIn (.src G) v := by
+  induction h with
+  | refl => exact ⟨0, .inl rfl, Reach.refl _⟩
+  | @step u w _ hw ih =>
+    obtain ⟨G, hG, hrG⟩ := ih
+    cases u with
+    | src g => exact ⟨G, hG, Reach.step hrG hw⟩
+    | node n =>
+      simp only [Prog.adjFull, List.mem_append, List.mem_map] at hw
+      rcases hw with ⟨i, hi, rfl⟩ | ⟨s, hs, rfl⟩
+      · exact ⟨G, hG, Reach.step hrG (by simp only [Prog.adjIn, List.mem_map]; exact ⟨i, hi, rfl⟩)⟩
+      · refine ⟨s, .inr ?_, Reach.refl _⟩
+        have hb : Below p s G := Below.direct hrG hs
+        rcases hG with hG | hG
+        · subst hG; exact hb
+        · exact Below.trans hG hb
+
+/-- … and conversely (so `G = 0 ∨ Below p G 0` is exactly "the body `G` is reachable"). -/
+theorem below_reach_full (p : Prog) {s g : Nat} (h : Below p s g) :
+    Reach p.adjFull (.src g) (.src s) := by
+  have hin : ∀ {u v : V}, Reach p.adjIn u v → Reach p.adjFull u v := by
+    intro u v hr
+    induction hr with
+    | refl => exact Reach.refl _
+    | @step a c _ hw ih =>
+      refine Reach.step ih ?_
+      cases a with
+      | src g => exact hw
+      | node n =>
+        simp only [Prog.adjIn, List.mem_map] at hw
+        simp only [Prog.adjFull, List.mem_append, List.mem_map]
+        exact .inl hw
+  induction h with
+  | @direct g n s hr hs =>
+    exact Reach.step (hin hr) (by simp only [Prog.adjFull, List.mem_append, List.mem_map]; exact .inr ⟨s, hs, rfl⟩)
+  | trans _ _ ih1 ih2 => exact Reach.trans ih1 ih2
+
+/-- **owner_unique**: in a successful build the recorded owner (`scope_tree.subgraph_owner`) of every
+    body held by an operator application some requested output depends on is THAT application — so
+    the `parent` function all scoping theorems talk about is well defined on the program, not only on
+    the Builder's table. -/
+theorem owner_unique (p : Prog) (hwf : WF p) (b : Built) (tr : List Ev)
+    (h : build p = .ok (b, tr)) (n s : Nat) (hn : Reach p.adjFull (.src 0) (.node n))
+    (hs : s ∈ p.subs n) : lookupN b.owner s = some n := by
+  obtain ⟨st, hdi, h0, _, hown, _⟩ := discover_final p hwf b tr h
+  obtain ⟨G, hG, hr⟩ := reach_full_split p hn
+  have hG' : G ∈ st.topo := by
+    rcases hG with hG | hG
+    · subst hG; exact h0
+    · exact (below_claimed p hwf st hdi hG h0).1
+  have hmem : V.node n ∈ p.postIn G :=
+    (mem_visit_iff (rankV p) (rank_adjIn p hwf) p.fuel _ _ (rank_src_lt_fuel p hwf G)).mpr hr
+  rw [hown]
+  exact hdi.OU G hG' n hmem s hs
+
+/-- **shared_body_rejected**: if two DIFFERENT operator applications some requested output depends on
+    (through input and subgraph edges: main program or any body, any depth) hold the same graph in
+    their attributes, `build` never returns a model (`BuildError` "multiple owners", or any earlier
+    error). Without the rejection the body's applications would be emitted once per holder. -/
+theorem shared_body_rejected (p : Prog) (hwf : WF p) (n1 n2 s : Nat) (hne : n1 ≠ n2)
+    (h1 : Reach p.adjFull (.src 0) (.node n1)) (h2 : Reach p.adjFull (.src 0) (.node n2))
+    (hs1 : s ∈ p.subs n1) (hs2 : s ∈ p.subs n2) : ∀ b tr, build p ≠ .ok (b, tr) := by
+  intro b tr h
+  have e1 := owner_unique p hwf b tr h n1 s h1 hs1
+  have e2 := owner_unique p hwf b tr h n2 s h2 hs2
+  rw [e1] at e2
+  exact hne (Option.some.inj e2)
+
+/-- **bodies_emitted_under_owner** (corollary): every emitted operator application holding a body is
+    the recorded owner of that body. -/
+theorem emitted_owner (p : Prog) (hwf : WF p) (b : Built) (tr : List Ev)
+    (h : build p = .ok (b, tr)) (n s : Nat) (hn : V.node n ∈ emitted tr) (hs : s ∈ p.subs n) :
+    lookupN b.owner s = some n :=
+  owner_unique p hwf b tr h n s ((emitted_iff_reachable p hwf b tr h _).mp hn).1 hs
+
 /-! ### least enclosing scope, on the algorithm (the scope tree changes while graphs are processed) -/
 
 /-- **least_enclosing**: after `for graph in graph_topo: update_scope_tree(graph)` the scope of every
@@ -1004,6 +1085,28 @@ example : ∃ b tr, build exLoop = .ok (b, tr) ∧ Bridge.mainCleanB exLoop b = 
   refine ⟨_, _, rfl, ?_⟩; decide
 example : ∃ b tr, build exNested = .ok (b, tr) ∧ Bridge.mainCleanB exNested b = true := by
   refine ⟨_, _, rfl, ?_⟩; decide
+
+/-- one Graph object handed to two If nodes (round 10): 0 x, 1 c (arguments); 2 Neg(x);
+    3 If(c){[x], [2]}; 4 If(c){the SAME two graphs}; 5 Add(3, 4) -/
+def exTwoOwners : Prog :=
+  { nodes := [⟨true, [], []⟩, ⟨true, [], []⟩, ⟨false, [0], []⟩, ⟨false, [1], [1, 2]⟩,
+              ⟨false, [1], [1, 2]⟩, ⟨false, [3, 4], []⟩],
+    graphs := [⟨some [0, 1], [5]⟩, ⟨some [], [0]⟩, ⟨some [], [2]⟩] }
+
+example : exTwoOwners.WFb = true := by decide
+example : build exTwoOwners = .error (.build "multiple-owners") := by rfl
+
+/-- the hypotheses of `shared_body_rejected` are satisfiable (conclusion = what the model computes) -/
+example : ∀ b tr, build exTwoOwners ≠ .ok (b, tr) := by
+  have r5 : Reach exTwoOwners.adjFull (.src 0) (.node 5) := Reach.step (Reach.refl _) (by decide)
+  exact shared_body_rejected exTwoOwners (wf_of_wfb _ (by decide)) 3 4 1 (by decide)
+    (Reach.step r5 (by decide)) (Reach.step r5 (by decide)) (by decide) (by decide)
+
+/-- `owner_unique` on the probe: the inner If (5) is the recorded owner of both of its bodies, the
+    outer If (6) of the other two -/
+example : ∃ b tr, build exNested = .ok (b, tr) ∧ lookupN b.owner 1 = some 5 ∧
+    lookupN b.owner 2 = some 5 ∧ lookupN b.owner 3 = some 6 ∧ lookupN b.owner 4 = some 6 := by
+  refine ⟨_, _, rfl, ?_, ?_, ?_, ?_⟩ <;> decide
 
 /-- sibling leak (design probe p4): the second Loop body uses the first body's argument 4. The
     Builder itself does not object (`build` succeeds, both bodies hang off the main graph); it is the
